@@ -29,7 +29,7 @@ import (
 func TestC04(t *testing.T) {
 	r := report.Start("C04")
 	defer r.Finish()
-	ng := r.Pick(64, 3200)
+	ng := r.Cases(64, 3200)
 	for g := 0; g < ng; g++ {
 		id := fmt.Sprintf("seq/%d", g)
 		if !r.Want(id, g) {
@@ -37,7 +37,7 @@ func TestC04(t *testing.T) {
 		}
 		c04Sequence(r, id)
 	}
-	ni := r.Pick(48, 2400)
+	ni := r.Cases(48, 2400)
 	for g := 0; g < ni; g++ {
 		id := fmt.Sprintf("ics20/%d", g)
 		if !r.Want(id, g) {
